@@ -472,8 +472,8 @@ func solveOne(o *Obligation, budgetS int, cross bool) {
 		// the representative instantiation of this clause already failed without a proof:
 		// the siblings get a short budget (they are reported under the same violation)
 		for i := range tiers {
-			if tiers[i].budget > 5 {
-				tiers[i].budget = 5
+			if tiers[i].budget > 2 {
+				tiers[i].budget = 2
 			}
 		}
 	}
